@@ -5,7 +5,19 @@ and every event sequence up to the depth bound (deduplicated on the
 implementation's canonical open-matcher state) the completed text is loaded with
 ZConfig.loadConfigFile and the accept/reject outcome is compared with the
 reference conformance predicate vz.ref.match.decide.
+
+Wave 5 adds two parts on a second schema family, the KEY-TYPE MIX (every
+container of one schema carries its own key type; key tokens are one
+representative of each membership class of the key types' languages):
+  part "kt"   - the same BFS over a lean vocabulary, so one spelling meets
+                several key types at schema-parse time, earlier in the same
+                text, and in earlier texts on the same schema object;
+  part "hist" - every ORDERED PAIR of short texts loaded one after the other
+                (same schema object / an earlier, different schema), both
+                verdicts compared with the history-free reference.
 """
+import itertools
+
 from vz import core
 from vz.engine import bfs
 from vz.gen import schema as M
@@ -65,17 +77,292 @@ def build(member):
     return S, root
 
 
-def check_case(S, sch, hist, text, acc, member_id):
+# ---------------------------------------------------------------------------
+# wave 5: the key-type mix family  (parts "kt" and "hist")
+
+# key-type alphabet: the three stock key types spelled explicitly, and None = no keytype attribute at all (the
+# documented default basic-key - NOT inherited from the enclosing schema or from the section that contains it)
+KT_ALPHABET = (None, "basic-key", "identifier", "ipaddr-or-hostname")
+KT_NAMES = ("basic-key", "identifier", "ipaddr-or-hostname")
+
+# one representative of each of the 2**3 membership classes of (basic-key, identifier, host name), inside the
+# domain of the reference's host-name model (no colon, no leading digit), plus a case variant of the token all
+# three accept (basic-key and host names fold case, identifiers do not)
+KT_TOKENS = ("zz", "Zz", "q", "a-b", "_a", "a.", "_", "_a-b", "-x")
+
+KT_EXTRA_MENU = (
+    ("key-Zz", lambda p: M.Key("Zz", attribute="c%d" % p)),
+    ("multikey-Zz", lambda p: M.MultiKey("Zz", attribute="c%d" % p)),
+    ("key-Zz-required", lambda p: M.Key("Zz", attribute="c%d" % p, required=True)),
+)
+
+
+def kt_name(kt):
+    return kt or "basic-key"
+
+
+def kt_membership(tok):
+    """Which of the three key types accept `tok` (by the reference's table-free models)."""
+    return tuple(R.KEYTYPES[k](tok) is not None for k in KT_NAMES)
+
+
+def kt_contents(tier):
+    """Label tuples of the container under test of the key-type mix family."""
+    quick = [(), ("pluskey",), ("plusmultikey",), ("pluskey-required",), ("key-Zz",), ("key-Zz", "pluskey")]
+    if tier == "quick":
+        return quick
+    return quick + [("pluskey", "key-Zz"), ("key-string",), ("key-string-required",), ("multikey-string",),
+                    ("multikey-Zz",), ("key-Zz-required",), ("pluskey-defaults",), ("plusmultikey-defaults",),
+                    ("plusmultikey-required",), ("pluskey-required-defaults",), ("multikey-Zz", "plusmultikey"),
+                    ("key-Zz-required", "pluskey-required")]
+
+
+def kt_family(tier):
+    """-> members ("kt", labels, (kt_schema, kt_sib, kt_cut), depth) and ("hist", labels, kts, modes)"""
+    fam = []
+    if tier == "quick":
+        triples = [(o, o, c) for o in KT_ALPHABET for c in KT_ALPHABET]
+        depth = 5
+    else:
+        triples = list(itertools.product(KT_ALPHABET, repeat=3))
+        depth = 6
+    for kts in triples:
+        for lab in kt_contents(tier):
+            fam.append(("kt", lab, kts, depth))
+    hist_contents = [("pluskey",), ("key-Zz", "pluskey")] if tier == "quick" else \
+        [(), ("pluskey",), ("plusmultikey",), ("key-Zz",), ("key-Zz", "pluskey"), ("pluskey-required",)]
+    hist_triples = [(o, o, c) for o in KT_ALPHABET[1:] for c in KT_ALPHABET[1:]] if tier == "quick" else \
+        [(o, s, c) for o in KT_ALPHABET for s in KT_ALPHABET[1:] for c in KT_ALPHABET]
+    for kts in hist_triples:
+        for lab in hist_contents:
+            fam.append(("hist", lab, kts, ("same-object", "earlier-schema")))
+    return fam
+
+
+def kt_build(labels, kts):
+    """Schema (key type kts[0]) declaring a multikey for every token its key type accepts, a '*' multisection of
+    'sib' (key type kts[1], one '+' key) and a '*' multisection of the container under test 'cut' (key type
+    kts[2], the items named by `labels`)."""
+    kt_s, kt_sib, kt_cut = kts
+    items = M.items_from_labels(labels, extra_menus=(KT_EXTRA_MENU,))
+    decl, seen = [], set()
+    norm = R.KEYTYPES[kt_name(kt_s)]
+    for i, t in enumerate(KT_TOKENS):
+        n = norm(t)
+        if n is None or n in seen:
+            continue
+        seen.add(n)
+        decl.append(M.MultiKey(t, attribute="d%d" % i))
+    sib = M.SType("sib", (M.Key("+", attribute="sw"),), keytype=kt_sib)
+    cut = M.SType("cut", items, keytype=kt_cut)
+    return M.Schema(types=(sib, cut), keytype=kt_s,
+                    items=tuple(decl) + (M.Sect("*", "sib", attribute="sibs", multi=True),
+                                         M.Sect("*", "cut", attribute="cuts", multi=True)))
+
+
+def kt_vocabulary(S, tname, can_close):
+    """Lean vocabulary of the key-type mix family: every token as a key line, the other declared keys, the two
+    section types (top level only), the closer."""
+    evs = [("k", t, "v") for t in KT_TOKENS]
+    for it in M.eff_items(S, tname):
+        if isinstance(it, (M.Key, M.MultiKey)) and it.name != "+" and it.name not in KT_TOKENS:
+            evs.append(("k", it.name, M.VALUE_TOKENS[it.datatype][0]))
+    if tname is None:
+        evs += [("o", "cut", None), ("o", "sib", None), ("e", "cut", None)]
+    if can_close:
+        evs.append(("c",))
+    return evs
+
+
+def kt_note(S, hist, acc):
+    """Evidence counters of the new axis: was the spelling of the last key line one that ANOTHER key type of this
+    schema accepts while the key type of its own container refuses it (or the other way round), and had it been
+    used before in the same text under a key type that accepts it?"""
+    if not hist or hist[-1][0] != "k":
+        return
+    tok = hist[-1][1]
+    st = R.open_stack(S, hist)
+    own = kt_name(M.eff_keytype(S, st[-1]))
+    others = set(kt_name(M.eff_keytype(S, t)) for t in (None, "sib", "cut")) - {own}
+    ok_own = R.KEYTYPES[own](tok) is not None
+    ok_other = any(R.KEYTYPES[o](tok) is not None for o in others)
+    if not others:
+        acc.extra["kt_key_lines_uniform_schema"] += 1
+        return
+    acc.extra["kt_key_lines_mixed_schema"] += 1
+    if ok_other and not ok_own:
+        acc.extra["kt_refused_here_accepted_by_other_key_type_of_schema"] += 1
+        for j, ev in enumerate(hist[:-1]):
+            if ev[0] == "k" and ev[1] == tok:
+                c = kt_name(M.eff_keytype(S, R.open_stack(S, hist[:j + 1])[-1]))
+                if R.KEYTYPES[c](tok) is not None:
+                    acc.extra["kt_refused_here_after_use_in_same_text_under_accepting_key_type"] += 1
+                    break
+    elif ok_own and not ok_other:
+        acc.extra["kt_accepted_here_refused_by_other_key_types_of_schema"] += 1
+    if ok_own and any(R.KEYTYPES[o](tok) not in (None, R.KEYTYPES[own](tok)) for o in others):
+        acc.extra["kt_normal_form_differs_between_key_types_of_schema"] += 1
+
+
+def explore_vocab(S, sch, depth, acc, check, vocab):
+    """vz.engine.bfs.explore with the vocabulary as a parameter (root = the empty text)."""
+    seen = set()
+    k0 = H.impl_state(sch, H.render_events((), close=False))
+    if k0 is None:
+        raise core.HarnessError("empty text refused by the implementation")
+    seen.add(k0)
+    check((), H.render_events(()))
+    frontier = [()]
+    level = 0
+    while frontier and level < depth:
+        nxt = []
+        for hist in frontier:
+            st = R.open_stack(S, hist)
+            for ev in vocab(S, st[-1], len(st) > 1):
+                h2 = hist + (ev,)
+                acc.current = h2
+                alive = check(h2, H.render_events(h2))
+                acc.transitions += 1
+                acc.traces += 1
+                if alive and level + 1 < depth:
+                    k = H.impl_state(sch, H.render_events(h2, close=False))
+                    if k is not None and k not in seen:
+                        seen.add(k)
+                        nxt.append(h2)
+        frontier = nxt
+        level += 1
+    acc.states += len(seen)
+    return len(seen)
+
+
+def kt_member_id(member, xml):
+    return {"part": member[0], "label": list(member[1]), "kts": list(member[2]),
+            "depth": member[3] if member[0] == "kt" else None, "schema": xml}
+
+
+def kt_shard(member, acc):
+    _, labels, kts, depth = member
+    S = kt_build(labels, kts)
+    xml = M.render(S)
+    sch = H.load_schema(xml)
+    mid = kt_member_id(member, xml)
+    prev = [None]
+
+    def check(h, t):
+        alive = check_case(S, sch, h, t, acc, mid, extra={"previous_text_on_this_schema_object": prev[0]},
+                           tags={"part": "kt"})
+        kt_note(S, h, acc)
+        prev[0] = t
+        return alive
+    explore_vocab(S, sch, depth, acc, check, kt_vocabulary)
+    acc.extra["schemas"] += 1
+    acc.extra["kt_schemas"] += 1
+    if len(set(kt_name(k) for k in kts)) > 1:
+        acc.extra["kt_schemas_mixing_key_types"] += 1
+    if None in kts:
+        acc.extra["kt_schemas_with_implicit_key_type"] += 1
+    return acc
+
+
+def hist_texts():
+    """The short texts of part "hist": the empty text, every token as a top-level key line, every token as the
+    only key line of a 'sib' and of a 'cut' section."""
+    out = [()]
+    for t in KT_TOKENS:
+        out.append((("k", t, "v"),))
+    for sec in ("sib", "cut"):
+        for t in KT_TOKENS:
+            out.append((("o", sec, None), ("k", t, "v")))
+    return out
+
+
+def hist_other(kts):
+    """The EARLIER schema of mode "earlier-schema": same shape, key types of surroundings and container exchanged."""
+    return (kts[2], kts[2], kts[0])
+
+
+def hist_pair(S, xml, S0, xml0, mode, h1, h2, acc, mid):
+    """One two-step history on freshly parsed schema objects: h1 (on the same object, or on an object of the earlier
+    schema S0), then h2 on S.  Both observed verdicts must equal the reference's, which knows no history."""
+    if mode == "same-object":
+        sch1 = sch2 = H.load_schema(xml)
+        S1 = S
+    else:
+        sch1 = H.load_schema(xml0)
+        sch2 = H.load_schema(xml)
+        S1 = S0
+    t1, t2 = H.render_events(h1), H.render_events(h2)
+    acc.ev()
+    acc.extra["hist_pairs"] += 1
+    ok = True
+    for step, (Sx, schx, h, t) in enumerate(((S1, sch1, h1, t1), (S, sch2, h2, t2))):
+        obs = H.load(schx, t)
+        ref = R.decide(Sx, h)
+        case = {"member": mid, "mode": mode, "first_events": [list(e) for e in h1], "first_text": t1,
+                "events": [list(e) for e in h2], "text": t2, "failing_step": step + 1}
+        if obs[0] == "internal":
+            d = core.exc_desc(obs[1])
+            acc.cls("internal")
+            acc.violation("internal-error", case, d, ref.verdict,
+                          tags={"kind": "internal-error", "exc": d["class"], "where": d["where"], "part": "hist"})
+            ok = False
+            continue
+        o = "A" if obs[0] == "ok" else "R"
+        if step == 1:
+            acc.cls("ref=%s impl=%s" % (ref.verdict, o))
+            acc.clause(ref.clause)
+            acc.sample(lambda: dict(case, reference=[ref.verdict, ref.clause], observed=o))
+        if ref.verdict != "U" and o != ref.verdict:
+            acc.violation("accepted-nonconforming" if o == "A" else "rejected-conforming", case,
+                          o if o == "A" else [o, type(obs[1]).__name__, str(obs[1])[:160]],
+                          [ref.verdict, ref.clause],
+                          tags={"kind": "verdict", "ref": ref.verdict, "clause": ref.clause, "part": "hist",
+                                "mode": mode, "step": step + 1})
+            ok = False
+    return ok
+
+
+def hist_shard(member, acc):
+    _, labels, kts, modes = member
+    S = kt_build(labels, kts)
+    xml = M.render(S)
+    S0 = kt_build(labels, hist_other(kts))
+    xml0 = M.render(S0)
+    mid = kt_member_id(member, xml)
+    texts = hist_texts()
+    refs = {h: R.decide(S, h) for h in texts}
+    for mode in modes:
+        for h1 in texts:
+            for h2 in texts:
+                acc.current = (mode, h1, h2)
+                hist_pair(S, xml, S0, xml0, mode, h1, h2, acc, mid)
+                r2 = refs[h2]
+                if h1 and h2 and r2.verdict != "U" and r2.clause != "unknown-type":
+                    acc.nt()
+                # did the first text show the second text's spelling to a key type that accepts it, while the key
+                # type the second text meets refuses it?
+                if h1 and h2 and r2.clause == "key-normalisation-fails" and h1[-1][1] == h2[-1][1]:
+                    S1 = S if mode == "same-object" else S0
+                    if R.decide(S1, h1).clause != "key-normalisation-fails":
+                        acc.extra["hist_pairs_spelling_refused_now_accepted_by_key_type_of_first_load"] += 1
+    acc.extra["hist_schemas"] += 1
+    return acc
+
+
+def check_case(S, sch, hist, text, acc, member_id, extra=None, tags=None):
     obs = H.load(sch, text)
     ref = R.decide(S, hist)
     acc.ev()
     acc.clause(ref.clause)
     case = {"member": member_id, "events": [list(e) for e in hist], "text": text}
+    if extra:
+        case.update(extra)
+    tags = tags or {}
     if obs[0] == "internal":
         d = core.exc_desc(obs[1])
         acc.cls("internal")
         acc.violation("internal-error", case, d, ref.verdict,
-                      tags={"kind": "internal-error", "exc": d["class"], "where": d["where"]})
+                      tags=dict(tags, kind="internal-error", exc=d["class"], where=d["where"]))
         return False
     o = "A" if obs[0] == "ok" else "R"
     acc.cls("ref=%s impl=%s" % (ref.verdict, o))
@@ -88,12 +375,16 @@ def check_case(S, sch, hist, text, acc, member_id):
         acc.violation("accepted-nonconforming" if o == "A" else "rejected-conforming", case,
                       o if o == "A" else [o, type(obs[1]).__name__, str(obs[1])[:160]],
                       [ref.verdict, ref.clause],
-                      tags={"kind": "verdict", "ref": ref.verdict, "clause": ref.clause})
+                      tags=dict(tags, kind="verdict", ref=ref.verdict, clause=ref.clause))
         return False
     return True
 
 
 def shard(member, acc):
+    if member[0] == "kt":
+        return kt_shard(member, acc)
+    if member[0] == "hist":
+        return hist_shard(member, acc)
     S, root = build(member)
     xml = M.render(S)
     sch = H.load_schema(xml)
@@ -106,6 +397,8 @@ def shard(member, acc):
 
 def run(tier):
     fam = family(tier)
+    ktfam = kt_family(tier)
+    n_kt = sum(1 for m in ktfam if m[0] == "kt")
     run = core.Run(
         "C01", tier, "model_checking",
         rule="for every schema of the family (ordered selections of <= 2 items from the item menu as "
@@ -116,13 +409,39 @@ def run(tier):
              "implementation; every transition's completed text is loaded and compared with the reference "
              "conformance predicate.  Non-trivial = sequence with >= 1 key/section event whose reference "
              "verdict is decided (not UNSPEC) by a clause other than unknown-type; sequences are distinct "
-             "by construction (BFS extends one representative per state).",
+             "by construction (BFS extends one representative per state).  "
+             "KEY-TYPE MIX (wave 5): a second family in which every container carries its OWN key type - the "
+             "schema (which declares a multikey for every token its key type accepts), a sibling section type "
+             "'sib' with a '+' key, and the container under test 'cut' - over the alphabet {no keytype attribute "
+             "(= basic-key, never inherited), basic-key, identifier, ipaddr-or-hostname}; key lines use one token "
+             "of each of the 8 membership classes of the three key types' languages plus a case variant, so a "
+             "spelling that one key type of the schema accepts meets another that refuses it (or normalises it "
+             "differently) after it was seen at schema-parse time, earlier in the same text, or in an earlier "
+             "text on the same schema object (part 'kt': the same BFS over that lean vocabulary from the empty "
+             "text).  LOAD HISTORY (part 'hist'): for such schemas every ORDERED PAIR (t1, t2) of the short "
+             "texts {empty, one token at top level / in <sib> / in <cut>} is loaded t1-then-t2 on a freshly "
+             "parsed schema object, and t1 on a freshly parsed EARLIER schema (key types of surroundings and "
+             "container exchanged) followed by t2 on a fresh object of the schema itself; both verdicts of every "
+             "pair are compared with the reference, which knows no history.",
         bounds={"schemas": len(fam), "max_items": 2 if tier == "quick" else 3, "depth": sorted(set(m[5] for m in fam)),
-                "menu": "full" if tier != "quick" else "reduced"},
+                "menu": "full" if tier != "quick" else "reduced",
+                "keytype_mix": {
+                    "schemas": n_kt,
+                    "key_type_alphabet": ["(none)"] + list(KT_NAMES),
+                    "assignments": "(schema = sib, cut): 16 ordered pairs" if tier == "quick"
+                                   else "(schema, sib, cut): all 64 triples",
+                    "contents_of_cut": [list(l) for l in kt_contents(tier)],
+                    "key_tokens": list(KT_TOKENS),
+                    "depth": sorted(set(m[3] for m in ktfam if m[0] == "kt")),
+                    "history_pairs": {"schemas": len(ktfam) - n_kt, "texts": len(hist_texts()),
+                                      "ordered_pairs_per_schema_and_mode": len(hist_texts()) ** 2,
+                                      "modes": ["same-object", "earlier-schema"]}}},
         assumptions=["reference conformance predicate vz/ref/match.py (written from the statement)",
                      "unspecified regions u1-u3 (order-dependent slot search) are not compared",
-                     "merging on the open-matcher state is sound: the parser and matchers consult nothing else"])
-    core.pmap(shard, fam, run.acc, shard_budget=1800.0)
+                     "merging on the open-matcher state is sound: the parser and matchers consult nothing else",
+                     "conformance is a function of (schema, text) alone: whatever the process, the schema object or "
+                     "an earlier load has seen before must not change a verdict (the reference is history-free)"])
+    core.pmap(shard, fam + ktfam, run.acc, shard_budget=1800.0)
     a = run.acc
     need = ["accepted", "key-not-declared", "single-key-filled-twice", "single-slot-filled-twice",
             "section-name-reused", "unknown-type", "abstract-type-named-directly", "no-slot-admits-type",
@@ -133,13 +452,65 @@ def run(tier):
     run.require(not missing, "reference clauses that never decided a case: %s" % missing)
     run.require(a.classes.get("ref=A impl=A", 0) > 100 and a.classes.get("ref=R impl=R", 0) > 100,
                 "too few accepted / rejected cases")
+    # wave 5: the key-type mix and the load-history axis were really exercised
+    classes = set(kt_membership(t) for t in KT_TOKENS)
+    run.require(len(classes) == 8, "key tokens realise only %d of the 8 membership classes" % len(classes))
+    x = a.extra
+    run.require(x["kt_schemas"] == n_kt and x["kt_schemas_mixing_key_types"] >= n_kt // 2
+                and x["kt_schemas_with_implicit_key_type"] >= n_kt // 4,
+                "key-type mix family not explored as declared: %s" % {k: v for k, v in x.items() if k.startswith("kt_s")})
+    run.require(x["kt_refused_here_accepted_by_other_key_type_of_schema"] > 1000
+                and x["kt_accepted_here_refused_by_other_key_types_of_schema"] > 1000
+                and x["kt_normal_form_differs_between_key_types_of_schema"] > 500
+                and x["kt_refused_here_after_use_in_same_text_under_accepting_key_type"] > 200,
+                "too few key lines whose spelling discriminates the key types of one schema: %s"
+                % {k: v for k, v in x.items() if k.startswith("kt_") and not k.startswith("kt_s")})
+    run.require(x["hist_schemas"] == len(ktfam) - n_kt
+                and x["hist_pairs"] == 2 * (len(ktfam) - n_kt) * len(hist_texts()) ** 2
+                and x["hist_pairs_spelling_refused_now_accepted_by_key_type_of_first_load"] > 100,
+                "load-history pairs not explored as declared: %s" % {k: v for k, v in x.items() if k.startswith("hist")})
     run.notes["merge_ratio"] = round(a.transitions / max(1, a.states), 1)
     return run
+
+
+def replay_kt(case):
+    m = case["member"]
+    kts = tuple(m["kts"])
+    S = kt_build(tuple(m["label"]), kts)
+    assert M.render(S) == m["schema"], "schema of the replay file cannot be rebuilt"
+    hist = tuple(tuple(e) for e in case["events"])
+    rc = 0
+    for _ in range(2):
+        acc = core.Acc()
+        if m["part"] == "kt":
+            sch = H.load_schema(m["schema"])
+            prev = case.get("previous_text_on_this_schema_object")
+            if prev is not None:
+                print("previous text on the same schema object:\n" + prev)
+                print("  ->", H.load(sch, prev)[0])
+            check_case(S, sch, hist, case["text"], acc, m, tags={"part": "kt"})
+            obs = H.load(sch, case["text"])
+            print("text:\n" + case["text"])
+            print("observed:", obs[0], repr(obs[1])[:200])
+            print("reference:", R.decide(S, hist).verdict, R.decide(S, hist).clause)
+        else:
+            h1 = tuple(tuple(e) for e in case["first_events"])
+            S0 = kt_build(tuple(m["label"]), hist_other(kts))
+            print("mode:", case["mode"], "\nfirst text:\n" + case["first_text"] + "second text:\n" + case["text"])
+            hist_pair(S, m["schema"], S0, M.render(S0), case["mode"], h1, hist, acc, m)
+            print("reference (first, second):", R.decide(S if case["mode"] == "same-object" else S0, h1).verdict,
+                  R.decide(S, hist).verdict)
+        for v in acc.violations.values():
+            print("REPLAY violation:", v["kind"], v["observed"], "expected", v["expected"], v["tags"])
+            rc = 1
+    return rc
 
 
 def replay(body):
     case = body["case"]
     m = case["member"]
+    if m.get("part") in ("kt", "hist"):
+        return replay_kt(case)
     member = (tuple(m["label"]), M.items_from_labels(m["label"]), m["placement"], m["keytype"], m["env"], m["depth"])
     S, root = build(member)
     assert M.render(S) == m["schema"], "schema of the replay file cannot be rebuilt"
